@@ -35,6 +35,9 @@ THEOREMS = [
     "SqlglotModel.Properties.C10.default_qualifier_needs_tag_first",
     "SqlglotModel.Properties.C10.normalizeT_base",
     "SqlglotModel.Properties.C10.normalizeT_table_sensitive",
+    "SqlglotModel.Properties.C10.generated_name_is_fixpoint",
+    "SqlglotModel.Properties.C10.generated_col_name_sites_ok",
+    "SqlglotModel.Properties.C10.unnormalised_generated_name_witness",
     "SqlglotModel.Properties.C10.schema_name_memo_sound",
     "SqlglotModel.Properties.C10.generated_schema_memo_key_ok",
     "SqlglotModel.Properties.C10.schema_name_memo_without_role_witness",
@@ -203,6 +206,25 @@ def default_qualifier_tag_first(chk: Check) -> bool:
     return all(verdicts)
 
 
+def col_name_sites(chk: Check):
+    """ast of qualify_outputs: every f-string that builds a `_col_<i>` name, and every normalize_identifier call;
+    each construction needs its own normalisation (today: one for the Subquery branch, one for the generic branch)"""
+    src = open(os.path.join(REPO, "sqlglot", "optimizer", "qualify_columns.py"), encoding="utf-8").read()
+    tree = ast.parse(src)
+    fn = next((n for n in tree.body if isinstance(n, ast.FunctionDef) and n.name == "qualify_outputs"), None)
+    if fn is None:
+        chk.broken.append({"kind": "translator", "what": "structure changed: qualify_outputs not found"})
+        return 0, 0
+    sites = sum(1 for n in ast.walk(fn) if isinstance(n, ast.JoinedStr)
+                and any(isinstance(v, ast.Constant) and "_col_" in str(v.value) for v in n.values))
+    sites += sum(1 for n in ast.walk(fn) if isinstance(n, ast.Constant) and isinstance(n.value, str) and "_col_" in n.value
+                 and not any(isinstance(p, ast.JoinedStr) and n in p.values for p in ast.walk(fn)))
+    norms = sum(1 for n in ast.walk(fn) if isinstance(n, ast.Call) and isinstance(n.func, ast.Attribute) and n.func.attr == "normalize_identifier")
+    if sites == 0:
+        chk.broken.append({"kind": "translator", "what": "structure changed: no _col_ name construction in qualify_outputs"})
+    return sites, norms
+
+
 def schema_memo_key(chk: Check) -> list:
     """ast of MappingSchema._normalize_name: the names in the `cache_key = (...)` tuple that indexes _normalized_name_cache"""
     src = open(os.path.join(REPO, "sqlglot", "schema.py"), encoding="utf-8").read()
@@ -335,6 +357,10 @@ def translate(chk: Check) -> str:
     L.append(f"def branchCopiesCteSources : Bool := {lean_bool(copies)}")
     L.append("/-- scope.py: does _traverse_ctes add a scope's own WITH definitions to its mapping in place (.update)? -/")
     L.append(f"def traverseCtesUpdatesInPlace : Bool := {lean_bool(in_place)}")
+    sites, norms = col_name_sites(chk)
+    chk.cov["qualify_outputs_col_name_sites"] = [sites, norms]
+    L.append("/-- qualify_columns.py qualify_outputs: (number of `_col_<i>` name constructions, number of normalize_identifier calls) -/")
+    L.append(f"def colNameSites : Nat × Nat := ({sites}, {norms})")
     mk = schema_memo_key(chk)
     chk.cov["schema_name_memo_key"] = mk
     L.append("/-- schema.py: the elements of MappingSchema._normalize_name's memo key tuple, in order -/")
@@ -809,10 +835,13 @@ class Gen:
                 self.features.add("qualified-star")
             else:
                 e = self.expr(allc, aliases, 0)
-                if not self.model and level < 3 and rng.random() < 0.06:
+                if not self.model and level < 3 and rng.random() < 0.1:
                     sub, _ = self.select(level + 1, ctes)
                     e = f"({sub})"
                     self.features.add("scalar-subquery")
+                elif not self.model and rng.random() < 0.08:
+                    e = rng.choice(["ABS", "COALESCE", "LENGTH"]) + "(" + e + ")"
+                    self.features.add("function-projection")
                 if rng.random() < 0.5:
                     al = rng.choice(ALIAS_NAMES + ["a2", "s"])
                     projs.append(f"{e} AS {self.ref(al, 0.05)}")
@@ -1051,7 +1080,23 @@ def oracle(sql, nested_schema, dialect):
     tree, q1 = r["tree"], r["q1"]
     s1, t2, q2, err = second_pass(q1, nested_schema, dialect)
     if err:
-        return ("requalify-raises", f"qualifying the result again raised {err}; first result: {s1}")
+        kind_rq = "requalify-raises"
+        if ("Unknown column" in err or "could not be resolved" in err) and "WITH" not in s1.upper() \
+                and "USING" not in sql.upper() and "exasol" not in str(dialect):
+            # (families with their own recorded signature — hoisted nested WITH, USING, exasol stars — keep the plain kind)
+            # a correlated subquery whose own source carries the same alias as a source of an enclosing select: a column the
+            # first pass qualified with the OUTER alias is captured by the inner one
+            for sel_ in select_nodes(q1):
+                if is_source_position(sel_):
+                    continue
+                outer_ = enclosing_select(sel_)
+                inner_names = {it.alias_or_name for it in own_sources(sel_)}
+                while outer_ is not None:
+                    if inner_names & {it.alias_or_name for it in own_sources(outer_)}:
+                        kind_rq = "requalify-raises:inner-alias-shadows-outer-source"
+                        break
+                    outer_ = enclosing_select(outer_)
+        return (kind_rq, f"qualifying the result again raised {err}; first result: {s1}")
     s2 = q2.sql(dialect=dialect)
     if s1 != s2:
         clauses = set()
@@ -1115,6 +1160,23 @@ def oracle(sql, nested_schema, dialect):
         if any(tb.name and d.normalize_identifier(tb.this.copy()).name == d.normalize_identifier(cte.args["alias"].this.copy()).name
                for tb in cte.this.find_all(exp.Table) if isinstance(tb.this, exp.Identifier)):
             return None
+    # generated output names (`_col_<i>` of an unaliased, unnamed projection) are normalised like any other identifier
+    sels0g, sels1g = select_nodes(tree), select_nodes(q1)
+    if len(sels0g) == len(sels1g):
+        for s0, s1n in zip(sels0g, sels1g):
+            if any(p.is_star for p in s0.expressions) or len(s0.expressions) != len(s1n.expressions):
+                continue
+            par = s0.parent
+            ncols = len(par.args["alias"].columns) if isinstance(par, (exp.Subquery, exp.CTE)) and par.args.get("alias") is not None else 0
+            for i, (p0, p1) in enumerate(zip(s0.expressions, s1n.expressions)):
+                if i < ncols or isinstance(p0, (exp.Alias, exp.Aliases)) or p0.alias_or_name or p0.output_name:
+                    continue
+                want = d.normalize_identifier(exp.to_identifier(f"_col_{i}")).name
+                got_n = p1.alias_or_name
+                if got_n != want:
+                    kind_p = type(p0).__name__ if isinstance(p0, (exp.Subquery, exp.Literal)) else ("Func" if isinstance(p0, exp.Func) else "Expression")
+                    return ("generated-output-name-not-normalised:" + kind_p,
+                            f"projection {i} ({kind_p}) got the generated name {got_n!r}; the dialect's normalisation of _col_{i} is {want!r} in {s1!r}")
     # stars and output names, select by select
     sels0, sels1 = select_nodes(tree), select_nodes(q1)
     if len(sels0) != len(sels1):
@@ -1881,6 +1943,41 @@ def schema_fidelity_oracle(schema, dialect):
     return rec(schema, ms.mapping, 0, [])
 
 
+def correspond_generated_names(chk: Check):
+    """the names qualify_outputs generates for unaliased projections of every kind, for every dialect class and every
+    strategy setting, vs the Lean `Gen.colName` instantiation (Ident.normalize of the unquoted `_col_i`)"""
+    sqlglot, exp, Dialect, Dialects, OptimizeError, qualify, MappingSchema = sg()
+    rows = {r["name"]: r for r in dialect_rows()}
+    lines, expect, meta = [], [], []
+    sql = "SELECT (SELECT 1), a + 1, (SELECT a FROM t AS i), ABS(a), 1 = 1 FROM t"
+    for d in Dialects:
+        if not rows[d.value]["base_normalize"] or not d.value and False:
+            continue
+        for st in [None] + STRATS:
+            spec = d.value or None
+            if st is not None:
+                if not d.value:
+                    continue
+                spec = f"{d.value}, normalization_strategy={st.lower()}"
+            try:
+                dd = Dialect.get_or_raise(spec)
+                tree = sqlglot.parse_one(sql, dialect=spec)
+                q1 = qualify(tree, schema={"t": {"a": "INT"}}, dialect=spec)
+            except Exception:  # noqa
+                continue
+            for i, p in enumerate(q1.expressions):
+                lines.append(json.dumps({"op": "norm", "st": dd.normalization_strategy.value, "name": f"_col_{i}", "quoted": False}))
+                expect.append(p.alias_or_name)
+                meta.append((spec, i, type(p.unalias()).__name__))
+    got = chk.driver("C10", lines)
+    chk.corr_cases += len(lines)
+    for g, e, m in zip(got, expect, meta):
+        chk.count("ident:generated-output-name")
+        if g.split("\t")[0] != e:
+            chk.correspondence_broken("generated output name differs from the normalised _col_i of the model",
+                                      {"case": m, "model": g.split("\t")[0], "impl": e})
+
+
 def correspond_name_memo(chk: Check):
     """MappingSchema._normalize_name call histories (fresh schema per history) vs normMemoRun"""
     _, exp, Dialect, Dialects, OptimizeError, qualify, MappingSchema = sg()
@@ -2225,7 +2322,7 @@ def consider(chk: Check, sql, schema, dialect, stats):
     res2 = oracle(small, schema, dialect) or res
     key = kind + "|" + skeleton(small, dialect)
     chk.report_violation(key, res2[1], {"sql": small, "schema": schema, "dialect": dialect, "original_sql": sql},
-                         context={"kind": kind, "dialect": dialect or ""})
+                         context={"kind": kind, "dialect": (dialect or "").split(",")[0].strip()})
 
 
 def search_idents(chk: Check):
@@ -2311,6 +2408,22 @@ def search(chk: Check, hints, budget_s):
     chk.cov["role_sensitive_dialects"] = [str(x) for x in role_d]
     while time.time() - t0 < budget_s:
         dialect = rng.choice(all_d)
+        if rng.random() < 0.15:
+            # the normalisation strategy given as a dialect SETTING (any class x any strategy)
+            dialect = (dialect or "") + ", normalization_strategy=" + rng.choice(STRATS).lower() if dialect else rng.choice(all_d[1:]) + ", normalization_strategy=" + rng.choice(STRATS).lower()
+            chk.count("search:strategy-as-setting")
+        if rng.random() < 0.12:
+            # unaliased projections of every kind side by side
+            dq = dialect
+            gq = Gen(rng, dq, False)
+            schq = {gq.isql("t", False): {gq.isql("a", False): "INT", gq.isql("b", False): "INT"}}
+            kinds = ["(SELECT 1)", "(SELECT a FROM t AS i)", "a + 1", "7", "ABS(a)", "a", "(a)", "1 = 1"]
+            rng.shuffle(kinds)
+            sqlq = "SELECT " + ", ".join(kinds[: rng.randint(2, 6)]) + " FROM t"
+            if rng.random() < 0.3:
+                sqlq = f"SELECT _col_0 FROM ({sqlq}) AS s" if not sqlq.startswith("SELECT a ") else sqlq
+            chk.count("search:unaliased-projection-template")
+            consider(chk, sqlq, schq, dq, stats)
         try:
             sql, schema, feats = gen_case(rng, dialect, False, unicode_ok=rng.random() < 0.3)
         except Exception:  # noqa
@@ -2444,6 +2557,7 @@ def run(chk: Check) -> None:
         correspond_table_sensitive(chk)
         correspond_cte_visibility(chk)
         correspond_name_memo(chk)
+        correspond_generated_names(chk)
         hints = correspond_queries(chk)
     except HarnessError as e:
         if proved:
@@ -2496,7 +2610,7 @@ def replay(path: str) -> int:
             m = k.get("match", {})
             if k.get("property") == "C10" and k.get("kind") == "known" and (
                     m.get("key") == key or ("key_regex" in m and _re.fullmatch(m["key_regex"], key, _re.S))):
-                if all({"kind": res[0], "dialect": r["dialect"] or ""}.get(ck) == cv for ck, cv in m.get("context", {}).items()):
+                if all({"kind": res[0], "dialect": (r["dialect"] or "").split(",")[0].strip()}.get(ck) == cv for ck, cv in m.get("context", {}).items()):
                     print(f"replay: holds (only the recorded known finding {k['id']} shows: {res[0]})")
                     return 0
     print("replay:", "VIOLATES: " + res[0] + ": " + res[1] if res else "holds")
